@@ -156,6 +156,11 @@ func (d *Decimal) setString(c *Context, s string) (Condition, error) {
 		exps = append(exps, -exp)
 		s = s[:i] + s[i+1:]
 	}
+	if strings.HasPrefix(s, "-") || strings.HasPrefix(s, "+") {
+		// The sign was consumed above; (big.Int).SetString would accept
+		// another one here (".-5") and leave a negative coefficient.
+		return 0, fmt.Errorf("parse mantissa: %s", s)
+	}
 	if _, ok := d.Coeff.SetString(s, 10); !ok {
 		return 0, fmt.Errorf("parse mantissa: %s", s)
 	}
